@@ -636,6 +636,11 @@ class HostInterp:
           w.alias = (base.root_cls, path)
           return w
         return v
+      if getattr(base, "ctor_loc", None) is not None:
+        # a constructed dataclass instance: unset fields carry their declared defaults
+        dflt = self._dataclass_default(base.cls, attr)
+        if dflt is not None:
+          return dflt
       sub = SUBOBJ.get((base.cls, attr))
       path = f"{base.path}.{attr}" if base.path else attr
       if sub:
@@ -864,6 +869,16 @@ class HostInterp:
             break
     self._launch_memo[fi.key] = res
     return res
+
+  def _dataclass_default(self, cname: str, attr: str):
+    for m in self.sm.modules.values():
+      cls = m.classes.get(cname)
+      if cls is None:
+        continue
+      for st in cls.body:
+        if isinstance(st, ast.AnnAssign) and isinstance(st.target, ast.Name) and st.target.id == attr and isinstance(st.value, ast.Constant):
+          return Const(st.value.value)
+    return None
 
   def _dataclass_fields(self, cname: str):
     for m in self.sm.modules.values():
